@@ -322,6 +322,16 @@ func (mq *memtableQueue) Rotate() {
 	mq.rotateNoLock()
 }
 
+// rotateIfNotEmpty rotates the mutable memtable unless it holds no documents,
+// so that a following flush also persists what was written most recently.
+func (mq *memtableQueue) rotateIfNotEmpty() {
+	mq.mu.Lock()
+	defer mq.mu.Unlock()
+	if mq.mutable.count() > 0 {
+		mq.rotateNoLock()
+	}
+}
+
 // rotateNoLock performs rotation without acquiring the lock.
 // Must be called with mq.mu held.
 func (mq *memtableQueue) rotateNoLock() {
